@@ -120,7 +120,14 @@ fn plan_strategy() -> BoxedStrategy<Plan> {
     ];
     // batches of a few medium spans whose total encoding lands within +-20 bytes of the limit
     let medium = (Just(1u8), any::<u16>());
+    // mostly oversize spans around a few that fit
+    let heavy = prop_oneof![
+        4 => (Just(3u8), any::<u16>()),
+        1 => (Just(0u8), any::<u16>()),
+        1 => (Just(1u8), any::<u16>()),
+    ];
     prop_oneof![
+        2 => (proptest::collection::vec(heavy, 3..12), -20i8..20).prop_map(|(items, straddle)| Plan { items, straddle }),
         3 => (proptest::collection::vec(medium, 2..5), -20i8..20).prop_map(|(items, straddle)| Plan { items, straddle }),
         6 => (proptest::collection::vec(item.clone(), 1..40), -20i8..20).prop_map(|(items, straddle)| Plan { items, straddle }),
         2 => (proptest::collection::vec(item.clone(), 40..160), -20i8..20).prop_map(|(items, straddle)| Plan { items, straddle }),
@@ -424,7 +431,20 @@ fn case_strategy(variant: &str) -> BoxedStrategy<Case> {
         "datadog" => prop_oneof![8 => proptest::collection::vec(rec(300), 0..10), 1 => proptest::collection::vec(rec(300), 10..120)]
             .prop_map(|batch| Case::Datadog { batch })
             .boxed(),
-        "otel" => batch_c19().prop_map(|batch| Case::Otel { batch }).boxed(),
+        "otel" => prop_oneof![
+            12 => batch_c19(),
+            // payloads of several MiB: many records with a large property each, or thousands of
+            // small ones
+            1 => (proptest::collection::vec(rec(100), 130..400), 7000usize..9000).prop_map(|(mut v, n)| {
+                for r in v.iter_mut() {
+                    r.props.push(("blob".to_string(), "y".repeat(n)));
+                }
+                v
+            }),
+            1 => proptest::collection::vec(rec(40), 6000..9000),
+        ]
+        .prop_map(|batch| Case::Otel { batch })
+        .boxed(),
         _ => plan_strategy().prop_map(|plan| Case::JaegerPlan { plan }).boxed(),
     }
 }
